@@ -275,8 +275,57 @@ def walk(n, out_path, seed):
     print("walk events", log.tid, "proofs", nproofs)
 
 
+def derivs(tlc_log, out_path):
+    """whole derivations printed by spec/C01_Derive.tla (exhaustive short ones, simulated deep ones), each replayed as ONE
+    gap-free proof object through theory.check_proof(no_gaps=True)"""
+    log = Log(out_path)
+    n = 0
+    for ln in open(tlc_log, errors="replace"):
+        if not ln.startswith('<<"DERIV", '):
+            continue
+        body = ln.strip()[len('<<"DERIV", '):-2]
+        steps = json.loads(json.loads(body))
+        prf = Proof()
+        results = []       # expected sequents as canonical strings, by step
+        ok = True
+        for i, st in enumerate(steps):
+            try:
+                arg = mk_arg(st["rule"], st["arg"])
+            except Exception as e:
+                raise RuntimeError("cannot decode derivation step %r: %r" % (st, e))
+            prevs = []
+            for p in st["prems"]:
+                key = json.dumps([sorted(json.dumps(h) for h in p["h"]), p["c"]])
+                if key not in results:
+                    ok = False
+                    break
+                prevs.append(results.index(key))
+            if not ok:
+                break
+            prf.add_item(i, st["rule"], args=arg, prevs=prevs)
+            e = st["expected"]
+            results.append(json.dumps([sorted(json.dumps(h) for h in e["h"]), e["c"]]))
+        if not ok:
+            raise RuntimeError("derivation cites a premise that no earlier step produced")
+        try:
+            res = theory.check_proof(prf, no_gaps=True)
+            oc = "accepted"
+        except CheckProofException:
+            res, oc = None, "rejected"
+        except Exception as e:
+            res, oc = None, "raised:" + type(e).__name__
+        n += 1
+        log.event("proof", "proof", None, [], oc, res, {"steps": [[st["rule"], len(st["prems"])] for st in steps],
+                                                       "direct": steps[-1]["expected"]})
+    log.close()
+    print("derivations", n)
+
+
 if __name__ == "__main__":
     mode = sys.argv[1]
+    if mode == "derivs":
+        derivs(sys.argv[2], sys.argv[3])
+        sys.exit(0)
     if mode == "replay":
         replay(sys.argv[2], sys.argv[3])
     elif mode == "walk":
